@@ -94,3 +94,14 @@ Require Copia.Proofs.TieSyncFiles.
 Theorem C01_sync_files_is_translation_of_source_and_delivers : TieSyncFiles.sync_files_is_translation.
 Proof. exact TieSyncFiles.sync_files_is_translation_holds. Qed.
 Print Assumptions C01_sync_files_is_translation_of_source_and_delivers.
+
+(** The signature and the lookup table the theorems above treat as a plain block LIST are the translation of
+    src/signature.rs as the source has it now: `BlockSignature::compute`, `Signature::generate` (the blocks of
+    `chunks` / `par_chunks` numbered from 0), `SignatureTable::from_signature` (weak hash -> indices in block order),
+    `find_match` (first candidate of that weak hash whose strong hash equals the data's), `has_weak_match`, `is_empty` -
+    the hash table is an index of the list, nothing more (Gen/SigTableGen.v, Proofs/TieSigTable.v); the translated scan
+    and `sync_files` call these generated functions. *)
+Require Copia.Proofs.TieSigTable.
+Theorem C01_signature_table_is_translation_of_source : TieSigTable.sig_table_is_translation.
+Proof. exact TieSigTable.sig_table_is_translation_holds. Qed.
+Print Assumptions C01_signature_table_is_translation_of_source.
